@@ -157,6 +157,16 @@ fn main() {
             probe::probe_both(&args[2], n);
             0
         }
+        "tokens" => {
+            let n = args.get(3).and_then(|s| s.parse().ok()).unwrap_or(2000);
+            probe::tokens(&args[2], n);
+            0
+        }
+        "annot" => {
+            let n = args.get(2).and_then(|s| s.parse().ok()).unwrap_or(2000);
+            probe::annot_probe::<simdata::SimpleW>(n);
+            0
+        }
         "demo" => {
             probe::demo_both(&args[2]);
             0
